@@ -737,4 +737,11 @@ theorem interp_mapOf_insert (ss : Bool) (s : Schema) (xs ys : Entries) (name : K
   · simp only [interp, mapEntries_append _ xs _ txs _ ex ev]
   · simp only [interp, mapEntries_append _ xs _ txs _ ex ey]
 
+/-- only the consumed keys are taken out of the map handed on to the kind's config -/
+theorem mem_keys_without (ks : List Key) (kvs : Entries) (k : Key)
+    (hk : k ∈ keys kvs) (hn : k ∉ ks) : k ∈ keys (without ks kvs) := by
+  simp only [keys, without, List.mem_map, List.mem_filter] at hk ⊢
+  obtain ⟨kv, hkv, rfl⟩ := hk
+  exact ⟨kv, ⟨hkv, by simpa using hn⟩, rfl⟩
+
 end Log4rs.ConfigDoc
